@@ -163,7 +163,8 @@ func c01(r *core.Run) {
 		"(exactly one of them), errors.ExternalError/ExternalNonError, or a propagated error/any value; never a string, a fmt.Errorf/errors.New result or an unmarked struct " +
 		"(which runtime.GetWrappedError would report as an internal UnexpectedError); every error type of the module carries exactly one marker; " +
 		"(R2) every embedding entry point of runtime that runs user code defers runtime.Recover before any other call; " +
-		"(R3) every recover() site has the reviewed arm summary (which dynamic types are absorbed, which re-panicked): none absorbs a Go runtime.Error or an InternalError except the reviewed boundaries, and new sites are violations until classified."
+		"(R3) every recover() site has the reviewed arm summary (which dynamic types are absorbed, which re-panicked): none absorbs a Go runtime.Error or an InternalError except the reviewed boundaries, and new sites are violations until classified; " +
+		"(R4) module-wide error discipline: no call of a module, atree or fixed-point function has its error result dropped, overwritten before being tested, or swallowed on its non-nil edge, beyond the 121 sites recorded from the pinned tree (a baseline, not individually justified)."
 	r.NotDecided = "type soundness (that defensive internal-error checks never fire for checker-accepted programs) and VM/interpreter parity: these need generated programs."
 	w := r.W
 	ec := loadErrClasses(r)
@@ -225,6 +226,7 @@ func c01(r *core.Run) {
 	r.Floor("R1.panic", 1500)
 	c01ErrorClasses(r, ec)
 	c01Boundary(r)
+	c01ErrorDiscipline(r)
 	checkRecoverTable(r, "R3.recover")
 	r.Floor("R3.recover", 30)
 }
@@ -372,3 +374,56 @@ func c01ErrorClasses(r *core.Run, ec *errClasses) {
 }
 
 var errorIface = types.Universe.Lookup("error").Type().Underlying().(*types.Interface)
+
+// c01ErrorDiscipline: R4 — module-wide: the error result of a call to a module function (or to atree / the
+// fixed-point library) is not dropped, overwritten before being tested, or swallowed on its non-nil edge, except at the
+// sites reviewed on the pinned tree (tables/c01_error_baseline.json: "caller -> callee" -> count). A failure that is
+// silently ignored lets execution continue on inconsistent state and typically ends in a Go run-time panic.
+func c01ErrorDiscipline(r *core.Run) {
+	w := r.W
+	got := map[string]int{}
+	total := 0
+	for _, fn := range w.SrcFuncs() {
+		if fn.Parent() != nil || fn.Pkg == nil || !w.InScope(fn.Pkg.Pkg.Path()) {
+			continue
+		}
+		for _, c := range core.Calls(fn, true) {
+			if !core.ReturnsError(c) {
+				continue
+			}
+			o := core.Callee(c)
+			if o == nil || o.Pkg() == nil {
+				continue
+			}
+			pp := o.Pkg().Path()
+			if !(core.InMod(pp) || pp == atreePath || pp == fixPath) {
+				continue
+			}
+			if _, isDefer := c.(*ssa.Defer); isDefer {
+				continue
+			}
+			total++
+			fl := core.FollowErr(c)
+			if fl.Dropped || len(fl.Sinks) == 0 || fl.Swallow != nil {
+				got[core.SSAKey(fn)+" -> "+core.FuncKey(o)]++
+			}
+		}
+	}
+	if genMode() {
+		genJSON(r, "c01_error_baseline", got)
+		return
+	}
+	var base map[string]int
+	if !r.Table("c01_error_baseline", &base) {
+		return
+	}
+	for _, k := range sortedKeys(got) {
+		if got[k] <= base[k] {
+			r.OK("R4.errdrop", k, 0, "baseline site(s) of the pinned tree where the error is not propagated ("+itoa(got[k])+"; recorded, not individually justified)")
+		} else {
+			r.Bad("R4.errdrop", k, 0, "the error result of this call is now dropped, overwritten before being tested, or swallowed on its non-nil edge ("+itoa(got[k])+" site(s), "+itoa(base[k])+" in the pinned baseline): a failure is silently ignored")
+		}
+	}
+	r.OK("R4.errdrop", "module-wide scan", 0, itoa(total)+" error-returning calls of module/atree/fixed-point functions scanned")
+	r.Floor("R4.errdrop", 1)
+}
